@@ -140,7 +140,7 @@ def main(argv=None):
             if ok:
                 canaries_refuted += 1
             else:
-                crashes.append((uname, "canary was not refuted: the checker would not notice a broken contract"))
+                crashes.append((uname, "canary was not refuted: the checker would not notice a broken contract; " + repr([(o.name, o.status, (o.replay or {}).get("error"), (o.replay or {}).get("exception"), (o.replay or {}).get("assume_failed"), runner._model_json(o.model)) for o in r.obligations if o.status != "proved"][:3]) + " " + r.reason[-300:]))
             continue
         if not r.obligations:
             crashes.append((uname, "unit generated zero obligations (vacuous)"))
